@@ -19,7 +19,8 @@ RULE = ("(exhaustive) every sequence of 0<len<=4 (quick) / <=6 (thorough) molecu
         "(random) Hypothesis: 2..5 random species (1..4 residues, private residue kinds), sequences up to 40 (quick) / "
         "300, random loaded subset and order, one absent species; (history) operation lists on one System: topologies added "
         "one by one by path, open file or MoleculeTop between full walks, partial iterations, (negative) indexing, "
-        "slices, refused (absent / already loaded) topologies, judged after every step. Non-trivial = >=2 loaded species interleaved and a "
+        "slices, refused (absent / already loaded) topologies, judged after every step; (runs) multi-residue species in "
+        "uninterrupted runs of 255..1025 instances. Non-trivial = >=2 loaded species interleaved and a "
         "multi-residue instance adjacent to another instance of itself. Distinct = sha1 of the case JSON.")
 ASSUMPTIONS = [
     "'distinct residue signatures': no (residue name, size) kind is shared between species or with the solvent",
@@ -429,7 +430,20 @@ def check_history(case):
             "sample": {"sequence": sequence[:12], "ops": [o[:2] + o[4:] for o in case["ops"][:12]]}}
 
 
+def long_runs(tier, seed):
+    species = {k: [[rn, names] for rn, names in v] for k, v in FIXED_SPECIES.items()}
+    runs = [255, 256, 257, 513, 1025] if tier == "thorough" else [257]
+    out = []
+    for i, r in enumerate(runs):
+        seq = ["A"] * 2 + ["B"] * r + ["W"] + ["C"] * (r // 2 + 1) + ["B"] * 2
+        out.append({"species": species, "sequence": seq, "load_order": ["C", "B", "A"][i % 3:] + ["C", "B", "A"][:i % 3],
+                    "seed": int(seed) * 7919 + i, "incremental": bool(i % 2)})
+    return out, True
+
+
 SUBCHECKS = [
+    Sub("runs", check, enumerate=long_runs,
+        note="multi-residue species in uninterrupted runs of 257 (quick) / 255..1025 (thorough) instances"),
     Sub("exhaustive", check, enumerate=exhaustive,
         note="all sequences up to 4 (quick) / 6 (thorough) molecules over 5 species x all load orders"),
     Sub("random", check, strategy=lambda tier: random_case(tier), quick=800, thorough=18000,
